@@ -1,3 +1,4 @@
+mod c14;
 mod checks;
 mod exec;
 mod explore;
